@@ -82,6 +82,13 @@ func contractServes(c *Contract, p string) bool {
 			return true
 		}
 	}
+	for _, cc := range c.Closures {
+		for _, cl := range append(append([]*Clause{}, cc.Requires...), cc.Ensures...) {
+			if hasProp(cl.Props, p) {
+				return true
+			}
+		}
+	}
 	for _, l := range c.Loops {
 		for _, cl := range l.Invariants {
 			if hasProp(cl.Props, p) {
